@@ -50,6 +50,12 @@ pub fn case(ch: &mut Chooser, max_depth: u32) -> Report {
     if labels.applies > 0 {
         rep.label("apply");
     }
+    if labels.redefinitions > 0 {
+        rep.label("top-level-name-redefined-with-a-like-value");
+    }
+    if labels.builtin_shadowed > 0 {
+        rep.label("builtin-name-bound-by-the-program");
+    }
     if labels.closure_per_round > 0 {
         rep.label("one-closure-per-round-of-a-self-tail-call");
     }
